@@ -7,7 +7,7 @@ from pyvc.contract import Contract, Case, LoopSpec
 from pyvc.dsl import A, prepend, log_append
 from pyvc.vals import S, PySeq, Fixed, View
 from . import worlds
-from .views import (member, val, transport, struct, i1, inv_m, cb_ok, outstanding, cb_present, cb_val, rooms, COUNTER)
+from .views import (issued_ok, member, val, transport, struct, i1, inv_m, cb_ok, outstanding, cb_present, cb_val, rooms, COUNTER)
 from .manager import addressed, room_domain, empty_kwargs, ROOMS, CBS, NEXT
 from .sending import frames_of, raw_grew, OUT, RAW
 from .packet_summary import has_binary
@@ -129,6 +129,7 @@ def emit_contract(target, W=W, also=()):
              'new-entries-only-for-recipients': z3.ForAll([s, k], z3.Implies(z3.And(outstanding(post, s, k), z3.Not(outstanding(pre, s, k))),
                                                                                 z3.And(may_add(s), cb_val(post, s, k) == callback)))}
         d.update(cb_ok(post))
+        d['issued-kept'] = z3.And(*issued_ok(post).values())
         return d
 
     def id_ok(pre, post, ns_owner, callback, e):
@@ -178,7 +179,7 @@ def emit_contract(target, W=W, also=()):
     return Contract(
         target=target, also=also, schema=W, self_obj='manager',
         params={'event': 'V', 'data': 'V', 'namespace': 'V', 'room': 'V', 'skip_sid': 'V', 'callback': 'V', 'to': 'V', 'kwargs': empty_kwargs},
-        requires=lambda c: dict(inv_m(c.pre), **dict(cb_ok(c.pre), **{'dom.room': room_domain(eff_room(c.a.to, c.a.room)),
+        requires=lambda c: dict(inv_m(c.pre), **dict(dict(cb_ok(c.pre), **issued_ok(c.pre)), **{'dom.room': room_domain(eff_room(c.a.to, c.a.room)),
                                                                       'callback-is-not-the-counter': c.a.callback != COUNTER})),
         cases=cases, env_hook=hook,
         loops={1: LoopSpec(inv_recipients, mod_state=[RAW, OUT], mod_vars=['tasks']),
